@@ -122,7 +122,7 @@ static int gen_case_inner(rng_t *r, const char *op, const genopt_t *g, sbuf_t *o
   if (IS("mul_naive") || IS("addmul_naive") || IS("mul_va") || IS("mul_m4rm") || IS("addmul_m4rm") || IS("mul") ||
       IS("addmul") || IS("mul_mp") || IS("addmul_mp") || IS("djb")) {
     int m = gen_dim(r, D), l = gen_dim(r, D), n = gen_dim(r, D);
-    if (IS("djb")) { if (m > 300) m = 1 + m % 300; if (l > 300) l = 1 + l % 300; }
+    if (IS("djb")) { if (m > 300) m = 1 + m % 300; if (l > 300) l = 1 + l % 300; if (rng_chance(r, 1, 2)) { if (m < 24) m += 24; if (l < 24) l += 24; } } /* large enough for the compiled program to outgrow its initial 64 entries */
     if (IS("mul_naive") || IS("addmul_naive") || IS("mul_va")) { if (m > 400) m = 1 + m % 400; }
     emit_mat(r, o, rb + 1, m, l, NULL, 0);
     emit_mat(r, o, rb + 2, l, n, NULL, 0);
@@ -130,7 +130,7 @@ static int gen_case_inner(rng_t *r, const char *op, const genopt_t *g, sbuf_t *o
     if (IS("djb")) supplied = 0;
     else if (need_c && !(IS("addmul_m4rm") || IS("addmul") || IS("addmul_mp"))) supplied = 1;
     else if (need_c) supplied = rng_chance(r, 3, 4);
-    if (supplied) emit_mat(r, o, rb, m, n, need_c ? "rand" : "junk", 128);
+    if (supplied) emit_mat(r, o, rb, m, n, (need_c && !IS("mul_va")) ? "rand" : "junk", 128); /* _mzd_mul_va is called with clear = 1: C is pure output */
     if (IS("mul_m4rm") || IS("addmul_m4rm")) sb_printf(o, "op %s %d %d %d %d\n", op, rb, rb + 1, rb + 2, (int)rng_below(r, 9));
     else if (IS("mul") || IS("addmul") || IS("mul_mp") || IS("addmul_mp")) sb_printf(o, "op %s %d %d %d %ld\n", op, rb, rb + 1, rb + 2, pick_cutoff(r, m, l, n));
     else sb_printf(o, "op %s %d %d %d\n", op, rb, rb + 1, rb + 2);
@@ -390,9 +390,12 @@ static int gen_case_inner(rng_t *r, const char *op, const genopt_t *g, sbuf_t *o
     return 1;
   }
   if (IS("find_pivot")) {
-    int m = gen_dim(r, D), n = gen_dim(r, D);
+    int m = gen_dim(r, D > 200 ? 200 : D), n = gen_dim(r, D);
+    if (wide_ok && rng_chance(r, 1, 2)) { n = 64 * (1 + (int)rng_below(r, 8)); if (rng_chance(r, 1, 3)) n -= (int)rng_below(r, 64); } /* the branches differ by whether fewer than 64 columns are left and where the last word ends */
     if (rng_chance(r, 1, 2)) emit_mat(r, o, rb, m, n, "sparse", 1 + (long)rng_below(r, 6)); else emit_mat(r, o, rb, m, n, NULL, 0);
-    sb_printf(o, "op find_pivot %d %d %d\n", rb, (int)rng_below(r, (uint64_t)m), (int)rng_below(r, (uint64_t)n));
+    int sc = (int)rng_below(r, (uint64_t)n);
+    if (rng_chance(r, 1, 2)) { int lw = n > 64 ? n - 1 - (int)rng_below(r, 63) : (int)rng_below(r, (uint64_t)n); sc = lw < 0 ? 0 : lw; } /* start inside the last word */
+    sb_printf(o, "op find_pivot %d %d %d\n", rb, rng_chance(r, 1, 3) ? 0 : (int)rng_below(r, (uint64_t)m), sc);
     return 1;
   }
   if (IS("randomize_custom")) {
